@@ -5,9 +5,65 @@
    PARTIAL BY CONSTRUCTION: the statements are about the subset model of JSON-LD, which is
    tied to json-gold / MerklizeJSONLD only differentially (JsonLD/Run.v, every run). *)
 From Coq Require Import ZArith List String.
-From GSP Require Import Base.Prelude RDF.Model JsonLD.Model JsonLD.Resolvers JsonLD.Theory.
+From GSP Require Import Base.Prelude RDF.Model JsonLD.Model JsonLD.Resolvers JsonLD.Theory JsonLD.Sim.
 Import ListNotations.
 Open Scope string_scope.
+
+(* The path the faithful model of Merklizer.ResolveDocPath / NewPathFromDocument returns
+   for the dotted path pi is the path under which the document states the field (doc_field:
+   the document semantics, which includes that every numeric segment selects a member), and
+   that fact is one of the facts of the document (the model of what is merklized; indices are
+   document positions, the stored numbering is the canonical one — compared differentially).
+   Hypothesis ok_along (JsonLD/Sim.v), for every node object on the path: every key of the node,
+   its @type values, the next path term and every term its contexts refer to without defining
+   it have the same definition in the context the node's type-scoped ancestors are reverted to
+   ("no type-scoped (re)definition visible in the nested node": boundary of D8), and the
+   members of an indexed array are indistinguishable for the resolver (jsim: boundary of the
+   member-0 walk).  Without it the statement is refuted below. *)
+Theorem C11_doc_vs_store :
+  forall ld m pi p p' dt v fs,
+  path_from_document ld (JObj m) pi = Ok p ->
+  doc_field ld (JObj m) pi = Ok (p', dt, v) ->
+  ok_along ld pi (fun _ => True) empty_ctx empty_ctx None m ->
+  facts ld (JObj m) = Ok fs ->
+  p = p' /\ exists f, In f fs /\ f_path f = p /\ f_dt f = dt /\ f_val f = v.
+Proof. exact doc_vs_store. Qed.
+Print Assumptions C11_doc_vs_store.
+
+(* the field a dotted path denotes is always one of the document's facts (no hypothesis) *)
+Theorem C11_field_is_fact :
+  forall ld doc pi p dt v fs,
+  doc_field ld doc pi = Ok (p, dt, v) ->
+  facts ld doc = Ok fs ->
+  exists f, In f fs /\ f_path f = p /\ f_dt f = dt /\ f_val f = v.
+Proof. exact field_is_fact. Qed.
+Print Assumptions C11_field_is_fact.
+
+(* declared datatype = recorded datatype *)
+Theorem C11_datatype_recorded :
+  forall G d dp p v t fs,
+  td_type d = Some t -> is_datatype t = true ->
+  scalar_fact G (Some d) dp p v = Ok fs ->
+  exists f, fs = [f] /\ f_dt f = t /\ f_val f = v /\ f_path f = p.
+Proof. exact declared_datatype_recorded. Qed.
+Print Assumptions C11_datatype_recorded.
+
+(* ... and the datatype TypeFromContext reports for (type, field) is the datatype of the fact
+   the document states for that field of a node of that type (root node, scalar field) *)
+Theorem C11_datatype :
+  forall ld C m k ty field v G dt fs p fdt fv,
+  jget "@context" m = Some C ->
+  cparse ld empty_ctx C = Ok G ->
+  type_key G m = Some k -> jget k m = Some (JStr ty) ->
+  type_from_context ld (JObj [("@context", C)]) [ty; field] = Ok dt ->
+  is_datatype dt = true -> dt <> "" ->
+  (forall G' d, term_def G' field = Some d -> td_ctx d = None) ->
+  jget field m = Some v -> is_scalar v = true ->
+  doc_field ld (JObj m) [field] = Ok (p, fdt, fv) ->
+  facts ld (JObj m) = Ok fs ->
+  fdt = dt /\ exists x, In x fs /\ f_path x = p /\ f_dt x = dt /\ f_val x = fv.
+Proof. exact datatype_root_field. Qed.
+Print Assumptions C11_datatype.
 
 (* field path resolved from the context alone (type + field path) = the document-side
    path (the type prefix stripped), whenever the nested nodes below the root contribute no
